@@ -299,6 +299,11 @@ def canon_cidr_strings(rng, nets):
 
 # --------------------------------------------------------------------------- helpers
 
+def drv(ctx, mode, ops):
+    """kmdriver on a possibly empty op list"""
+    return c.run_driver(ctx, mode, ops) if ops else []
+
+
 def kv(line):
     return dict(x.split("=", 1) for x in line.split() if "=" in x)
 
@@ -316,8 +321,8 @@ def run(ctx):
         want_l = [v["replay"]["lib_op"] for v in rp.get("violations", []) if "lib_op" in v.get("replay", {})]
         want_h = [v["replay"]["handler_op"] for v in rp.get("violations", []) if "handler_op" in v.get("replay", {})]
         if want_l or want_h:
-            lib = [o for o in lib if o[1] in want_l] + [("rawreplay", l, {"peer": None}) for l in want_l if l not in [o[1] for o in lib]]
-            hnd = [o for o in hnd if handler_line(o) in want_h]
+            lib = [lib_op_from_line(l) for l in dict.fromkeys(want_l)]
+            hnd = [handler_op_from_line(l) for l in dict.fromkeys(want_h)]
     hist = {"verify": {}, "peer": {}, "prefix_lengths_minted": set(), "refresh_status": {}, "certgen_status": {},
             "chain": {1: 0, 2: 0}, "parse": {}, "dec": {}}
 
@@ -326,7 +331,7 @@ def run(ctx):
 
     # ------------------------------------------------------------------ library level
     lops = [o[1] for o in lib]
-    impl, log, rc = c.run_harness(ctx, "lib/certgen", "C11Lib", lops)
+    impl, log, rc = c.run_harness(ctx, "lib/certgen", "C11Lib", lops) if lops else ([], "", 0)
     if rc != 0 or len(impl) != len(lops):
         ctx.broken.append("harness TestVerifC11Lib did not complete (exit %d, %d/%d lines)" % (rc, len(impl), len(lops)))
         return c.finish(ctx)
@@ -388,7 +393,7 @@ def run(ctx):
             jmeta.append(op)
             if f["verify"] in ("t", "err") or f["extract"].startswith("ok:"):
                 nontrivial.add(op)
-    model = c.run_driver(ctx, "model", mops)
+    model = drv(ctx, "model", mops)
     # minted extension bytes: the model's wire form, DER-encoded here, must equal the certificate's bytes
     mcanon = []
     for m in model:
@@ -397,7 +402,7 @@ def run(ctx):
             m = m.replace("wire=" + f["wire"], "ext=" + der_ext(parse_wire_str(f["wire"])).hex())
         mcanon.append(m)
     c.diff_streams(ctx, "lib/certgen encode/decode/Verify/Extract/GenIPRestrictedX509Cert vs KM.IPBlock", mops, mimpl, mcanon)
-    verdicts = c.run_driver(ctx, "judge", jops)
+    verdicts = drv(ctx, "judge", jops)
     for op, j, v in zip(jmeta, jops, verdicts):
         if v != "ok":
             key = ("panic:" if "panic" in v else "lib:") + op
@@ -410,7 +415,7 @@ def run(ctx):
     hops = [handler_line(o) for o in hnd]
     # a few certificates through the real creation handler as well (strings as an operator types them)
     gets = []
-    for i in range(40 if quick else 400):
+    for i in range(0 if ctx.replay else (40 if quick else 400)):
         r = ctx.rng.random()
         if r < 0.75:
             nets = [rand_block(ctx.rng, ctx.rng.randrange(33)) for _ in range(ctx.rng.choice([1, 2, 3]))]
@@ -422,7 +427,7 @@ def run(ctx):
         else:
             gets.append(([ctx.rng.choice(["10.1.2.3", "10.0.0.0/33", "banana", "10.0.0/8", ""])], None, 400))
     hops += ["get %s" % c.hexs(",".join(s)) for s, _, _ in gets]
-    himpl, log, rc = c.run_harness(ctx, "cmd/keymasterd", "C11", hops)
+    himpl, log, rc = c.run_harness(ctx, "cmd/keymasterd", "C11", hops) if hops else ([], "", 0)
     if rc != 0 or len(himpl) != len(hops):
         ctx.broken.append("harness TestVerifC11 did not complete (exit %d, %d/%d lines)" % (rc, len(himpl), len(hops)))
         return c.finish(ctx)
@@ -434,6 +439,8 @@ def run(ctx):
             ctx.broken.append("handler harness could not run op %r: %s" % (line, out))
             continue
         f = kv(out)
+        if cls is None:
+            cls = f["peer"]
         if f["peer"] != cls:
             ctx.broken.append("generator/peer class: %r expected %s, stdlib says %s" % (addr, cls, f["peer"]))
             continue
@@ -471,17 +478,17 @@ def run(ctx):
             mimpl.append("crashed certgen=%s" % cg[0])
         else:
             mimpl.append("status %s certgen=%s" % (rf[0], cg[0]))
-    model = c.run_driver(ctx, "model", mops)
+    model = drv(ctx, "model", mops)
     mcanon = model
     c.diff_streams(ctx, "refreshRoleRequestingCertGenHandler+certGenHandler vs KM.IPBlock.refresh", mops, mimpl, mcanon)
-    verdicts = c.run_driver(ctx, "judge", jops)
+    verdicts = drv(ctx, "judge", jops)
     for (line, which), j, v in zip(jmeta, jops, verdicts):
         if v != "ok":
             c.add_violation(ctx, ("panic:" if "panic" in v else "handler:") + line, "%s: %s (judge op %s)" % (which, v, j),
                             {"handler_op": line, "judge": v, "judge_op": j, "which": which})
     # extension bytes of refreshed certificates = what minting the same blocks gives
     if extops:
-        em = c.run_driver(ctx, "model", extops)
+        em = drv(ctx, "model", extops)
         for op, got, m in zip(extops, extimpl, em):
             f = kv(m)
             want = der_ext(parse_wire_str(f["wire"])).hex() if "wire" in f else "<none>"
@@ -490,7 +497,7 @@ def run(ctx):
                 break
     # creation handler
     gimpl = himpl[len(hnd):]
-    gm = c.run_driver(ctx, "model", ["mint %s v6" % (",".join(blk(*x) for x in nets) if nets else "other") for _, nets, _ in gets])
+    gm = drv(ctx, "model", ["mint %s v6" % (",".join(blk(*x) for x in nets) if nets else "other") for _, nets, _ in gets])
     for (strs, nets, status), out, m in zip(gets, gimpl, gm):
         g = out.split("=", 1)[1].split("|") if out.startswith("get=") else ["?"]
         if g[0] == "PANIC" or out.startswith("status=PANIC"):
@@ -525,6 +532,70 @@ def run(ctx):
         "revocation lookup (cfssl revoke) is a boolean input of the model; the harness cannot make it answer 'revoked' offline",
     ]
     return c.finish(ctx)
+
+
+def parse_blocks(ns):
+    out = []
+    if ns != "-":
+        for x in ns.split(","):
+            if x == "other":
+                out.append("other")
+            else:
+                ip, n = x.split("/")
+                a = 0
+                for part in ip.split("."):
+                    a = (a << 8) | int(part)
+                out.append((a, int(n)))
+    return out
+
+
+def der_read(b, pos=0):
+    """one TLV -> (tag, content, next position); raises on anything this file's encoder does not write"""
+    tag, ln, pos = b[pos], b[pos + 1], pos + 2
+    if ln & 0x80:
+        k = ln & 0x7F
+        ln, pos = int.from_bytes(b[pos:pos + k], "big"), pos + k
+    if pos + ln > len(b):
+        raise ValueError("truncated")
+    return tag, b[pos:pos + ln], pos + ln
+
+
+def der_children(b):
+    out, pos = [], 0
+    while pos < len(b):
+        tag, content, pos = der_read(b, pos)
+        out.append((tag, content))
+    return out
+
+
+def parse_der_ext(der):
+    """inverse of der_ext for values built by it (used to replay handler ops from a replay file)"""
+    tag, content, _ = der_read(der)
+    fams = []
+    for _, fam in der_children(content):
+        (_, afi), (_, addrs) = der_children(fam)
+        fams.append((bytes(afi), [(a[0], bytes(a[1:])) for _, a in der_children(addrs)]))
+    return fams
+
+
+def lib_op_from_line(line):
+    f = line.split()
+    if f[0] == "dec":
+        return ("decneg" if f[1].startswith("-") else "dec", line, {})
+    if f[0] == "enc":
+        return ("enc", line, {})
+    if f[0] == "mint":
+        return ("mint", line, {"nets": parse_blocks(f[1]), "peer": None})
+    return ("raw", line, {"peer": None})
+
+
+def handler_op_from_line(line):
+    f = line.split()
+    addr = c.unhexs(f[4])
+    cls = None
+    if f[2] == "nets":
+        return ("nets", int(f[1]), parse_blocks(f[3]), addr, cls, f[5])
+    return ("raw", int(f[1]), parse_der_ext(bytes.fromhex(f[3])), addr, cls, f[5])
 
 
 def handler_line(o):
